@@ -6,6 +6,10 @@ import RigModel.Lemmas.C02Merge2
 import RigModel.Lemmas.C02Term
 import RigModel.Lemmas.C02Complete
 import RigModel.Lemmas.C02Init
+import RigModel.Lemmas.C02SA
+import RigModel.Lemmas.C02Doc
+import RigModel.Lemmas.C02Complete2
+import RigModel.Lemmas.C02Hilbert
 set_option linter.unusedSimpArgs false
 set_option linter.unusedVariables false
 
@@ -59,8 +63,23 @@ private theorem inv_after_prepare {vr' : VR} {cs' : List Constraint} {m m' : Mac
     funext c i; omega
   rw [← e]; exact this
 
-/-- common end of the three proofs: a loop result on the merged problem expands to a feasible
-placement of the caller's problem -/
+/-- common end of the proofs: a loop result on the merged problem expands (the expansion cannot
+fail) to a feasible placement of the caller's problem -/
+private theorem finish_ex {vr vr' : VR} {cs cs' : List Constraint} {m m' : Machine} {subs : List (List Vtx)}
+    {fixed pf : Placement} (O : MergeOut m vr cs [] vr' cs' subs) (hcons : LocConsistent cs')
+    (hprep : prepareLoop vr' cs' m [] = .ok (m', fixed))
+    (mf : Machine) (I : Inv vr' m (fun c i => reserved cs' c i) mf pf)
+    (hmono : ∀ v c, aget fixed v = some c → aget pf v = some c)
+    (hall : ∀ v ∈ keys vr', (aget pf v).isSome) :
+    ∃ p, finalise subs pf = .ok p ∧ Feasible vr cs m p := by
+  have hloc : ∀ v c, Constraint.loc v c ∈ cs' → aget pf v = some c :=
+    fun v c hvc => hmono v c (prepare_loc hprep hcons v c hvc)
+  have hst : SameTrivial cs' := sameTrivial_of_inv (by simpa using O.inv)
+  have F := feasible_of_inv I hall hloc hst
+  obtain ⟨p0, hp0, F0⟩ := O.back pf F
+  simp only [List.length_nil] at hp0
+  exact ⟨p0, hp0, F0⟩
+
 private theorem finish {vr vr' : VR} {cs cs' : List Constraint} {m m' : Machine} {subs : List (List Vtx)}
     {fixed pf p : Placement} (O : MergeOut m vr cs [] vr' cs' subs) (hcons : LocConsistent cs')
     (hprep : prepareLoop vr' cs' m [] = .ok (m', fixed))
@@ -68,12 +87,7 @@ private theorem finish {vr vr' : VR} {cs cs' : List Constraint} {m m' : Machine}
     (hmono : ∀ v c, aget fixed v = some c → aget pf v = some c)
     (hall : ∀ v ∈ keys vr', (aget pf v).isSome)
     (hfin : finalise subs pf = .ok p) : Feasible vr cs m p := by
-  have hloc : ∀ v c, Constraint.loc v c ∈ cs' → aget pf v = some c :=
-    fun v c hvc => hmono v c (prepare_loc hprep hcons v c hvc)
-  have hst : SameTrivial cs' := sameTrivial_of_inv (by simpa using O.inv)
-  have F := feasible_of_inv I hall hloc hst
-  obtain ⟨p0, hp0, F0⟩ := O.back pf F
-  simp only [finalise, List.length_nil] at hfin hp0
+  obtain ⟨p0, hp0, F0⟩ := finish_ex O hcons hprep mf I hmono hall
   rw [hp0] at hfin; injection hfin with e; subst e; exact F0
 
 /-- **Sequential placer (hence Hilbert, RCM, breadth-first).**  For EVERY vertex order that
@@ -162,16 +176,50 @@ theorem randPlace_sound (vr : VR) (cs : List Constraint) (m : Machine) (picks : 
         | none => exact hall v (by simp [List.mem_filter, hv, hx])
         | some x => simp [hmono v x hx]
 
-/-- **Annealer: initial placement and the "trivial solution" return.**  For EVERY outcome of the
-two shuffles (`locs` = shuffled chips, `vs` = shuffled movable vertices, which must list every vertex
-that is not fixed), what `sa.place` returns when the kernel is not used is feasible; the same
-placement is the kernel's starting state otherwise. -/
-theorem saPlace_initial_sound (vr : VR) (cs : List Constraint) (m : Machine) (locs : List Chip)
-    (vs : List Vtx) (p : Placement) (fl : List Bool)
+/-- facts about the annealer's initial placement merged with the fixed vertices -/
+private theorem sa_initial_facts {vr' : VR} {cs' : List Constraint} {m m' m'' : Machine}
+    {fixed init : Placement} {locs : List Chip} {vs : List Vtx}
+    (hn' : (keys vr').Nodup) (hnn' : NonNegVR vr') (hcap : NonNegCap m)
+    (hP : prepareLoop vr' cs' m [] = .ok (m', fixed))
+    (hI : initialPlacement vr' m' locs vs = .ok (m'', init))
+    (hvs : ∀ v ∈ keys vr', v ∈ vs ∨ v ∈ keys fixed) :
+    Inv vr' m (fun c i => reserved cs' c i) m'' (mergeP init fixed) ∧
+    (∀ v c, aget fixed v = some c → aget (mergeP init fixed) v = some c) ∧
+    (∀ v ∈ keys vr', (aget (mergeP init fixed) v).isSome) := by
+  have I0 := inv_after_prepare hn' hnn' hcap hP
+  cases locs with
+  | nil => simp [initialPlacement] at hI
+  | cons c0 rest =>
+    simp only [initialPlacement] at hI
+    have hcap' : NonNegCap m' := fun c hc i => I0.nonneg c (by rw [← I0.ok_eq]; exact hc) i
+    obtain ⟨I2, hall2, _⟩ := initLoop_inv hn' hnn' _ _ _ _ _ _ _ (Inv.init vr' m' hcap') hI
+    have I := Inv.compose hnn' I0 I2
+    have hget := aget_mergeP fixed init
+    refine ⟨I, ?_, ?_⟩
+    · intro v c hv
+      rw [hget v I0.pnodup, hv]
+    · intro v hv
+      rw [hget v I0.pnodup]
+      rcases hvs v hv with h1 | h1
+      · cases hx : aget fixed v with
+        | none => exact hall2 v h1
+        | some c => rfl
+      · have := (aget_isSome_iff fixed v).2 h1
+        cases hx : aget fixed v with
+        | none => simp [hx] at this
+        | some c => rfl
+
+/-- **Annealer (Python kernel), whole run.**  For EVERY outcome of the two shuffles (`locs` =
+shuffled chips, `vs` = shuffled movable vertices, which must list every vertex that is not fixed)
+and, when the kernel is used, for EVERY list of proposals `steps` (source vertex, destination chip,
+accept bit - i.e. whatever the RNG draws, the temperature and the cost function are), a placement
+returned by `sa.place` is feasible.  `steps = none` is the "trivial solution" return. -/
+theorem saPlace_sound (vr : VR) (cs : List Constraint) (m : Machine) (locs : List Chip)
+    (vs : List Vtx) (steps : Option (List Step)) (p : Placement) (fl : List Bool)
     (wf : WF vr cs m) (hcons : Consistent vr cs) (hempty : EmptyOK vr cs m)
     (hvs : ∀ vr' cs' subs m' fixed, applySame vr cs = .ok (vr', cs', subs) →
       prepareLoop vr' cs' m [] = .ok (m', fixed) → ∀ v ∈ keys vr', v ∈ vs ∨ v ∈ keys fixed)
-    (h : saPlace vr cs m locs vs none = .ok (p, fl)) : Feasible vr cs m p := by
+    (h : saPlace vr cs m locs vs steps = .ok (p, fl)) : Feasible vr cs m p := by
   unfold saPlace at h
   split at h
   · rename_i h0
@@ -189,41 +237,366 @@ theorem saPlace_initial_sound (vr : VR) (cs : List Constraint) (m : Machine) (lo
       | error e => simp [hA, hP, bind, Except.bind] at h
       | ok r2 =>
         obtain ⟨m', fixed⟩ := r2
-        have I0 := inv_after_prepare hn' hnn' wf.nonnegCap hP
         cases hI : initialPlacement vr' m' locs vs with
         | error e => simp [hA, hP, hI, bind, Except.bind] at h
         | ok r3 =>
           obtain ⟨m'', init⟩ := r3
+          obtain ⟨I, hmono, hall⟩ := sa_initial_facts hn' hnn' wf.nonnegCap hP hI (hvs _ _ _ _ _ hA hP)
           simp only [hA, hP, hI, bind, Except.bind, pure, Except.pure] at h
-          cases hF : finalise subs (mergeP init fixed) with
-          | error e => simp [mergeP] at hF; simp [hF] at h
-          | ok pf =>
-            have hF' := hF
-            simp only [mergeP] at hF'
-            simp only [hF'] at h
-            injection h with h; injection h with h1 h2; subst h1
-            -- the initial placement loop
-            cases locs with
-            | nil => simp [initialPlacement] at hI
-            | cons c0 rest =>
-              simp only [initialPlacement] at hI
-              have hcap' : NonNegCap m' := fun c hc i => I0.nonneg c (by rw [← I0.ok_eq]; exact hc) i
-              obtain ⟨I2, hall2, _⟩ := initLoop_inv hn' hnn' _ _ _ _ _ _ _ (Inv.init vr' m' hcap') hI
-              have I := Inv.compose hnn' I0 I2
-              have hget := aget_mergeP fixed init
-              refine finish O (hcons _ _ _ hA) hP m'' I ?_ ?_ hF
-              · intro v c hv
-                rw [hget v I0.pnodup, hv]
-              · intro v hv
-                rw [hget v I0.pnodup]
-                rcases hvs _ _ _ _ _ hA hP v hv with h1 | h1
-                · cases hx : aget fixed v with
-                  | none => exact hall2 v h1
-                  | some c => rfl
-                · have := (aget_isSome_iff fixed v).2 h1
-                  cases hx : aget fixed v with
-                  | none => simp [hx] at this
-                  | some c => rfl
+          have hp0 : List.foldl (fun q (vc : Vtx × Chip) => aset q vc.1 vc.2) init fixed = mergeP init fixed := rfl
+          rw [hp0] at h
+          cases steps with
+          | none =>
+            simp only at h
+            cases hF : finalise subs (mergeP init fixed) with
+            | error e => simp [hF] at h
+            | ok pf =>
+              simp only [hF] at h
+              injection h with h; injection h with h1 h2; subst h1
+              exact finish O (hcons _ _ _ hA) hP m'' I hmono hall hF
+          | some sts =>
+            simp only at h
+            cases hL : mkL2v m'' (mergeP init fixed) with
+            | error e => simp [hL] at h
+            | ok l2v =>
+              simp only [hL] at h
+              cases hR : saRun vr' (keys fixed) sts { m := m'', p := mergeP init fixed, l2v := l2v } [] with
+              | error e => simp [hR] at h
+              | ok r4 =>
+                obtain ⟨s, fl'⟩ := r4
+                simp only [hR] at h
+                cases hF : finalise subs s.p with
+                | error e => simp [hF] at h
+                | ok pf =>
+                  simp only [hF] at h
+                  injection h with h; injection h with h1 h2; subst h1
+                  have J := SAInv.run hn' _ _ _ _ _ (SAInv.start (keys fixed) I hL) hR
+                  refine finish O (hcons _ _ _ hA) hP s.m (J.toInv I) ?_ ?_ hF
+                  · intro v c hv
+                    rw [J.fixedUnmoved v ((aget_isSome_iff fixed v).1 (by simp [hv]))]
+                    exact hmono v c hv
+                  · intro v hv
+                    exact (aget_isSome_iff _ _).2 ((J.pkeys v).2 ((aget_isSome_iff _ _).1 (hall v hv)))
+
+/-- **Annealer: initial placement and the "trivial solution" return.**  For EVERY outcome of the
+two shuffles (`locs` = shuffled chips, `vs` = shuffled movable vertices, which must list every vertex
+that is not fixed), what `sa.place` returns when the kernel is not used is feasible; the same
+placement is the kernel's starting state otherwise.  (Special case of `saPlace_sound`.) -/
+theorem saPlace_initial_sound (vr : VR) (cs : List Constraint) (m : Machine) (locs : List Chip)
+    (vs : List Vtx) (p : Placement) (fl : List Bool)
+    (wf : WF vr cs m) (hcons : Consistent vr cs) (hempty : EmptyOK vr cs m)
+    (hvs : ∀ vr' cs' subs m' fixed, applySame vr cs = .ok (vr', cs', subs) →
+      prepareLoop vr' cs' m [] = .ok (m', fixed) → ∀ v ∈ keys vr', v ∈ vs ∨ v ∈ keys fixed)
+    (h : saPlace vr cs m locs vs none = .ok (p, fl)) : Feasible vr cs m p :=
+  saPlace_sound vr cs m locs vs none p fl wf hcons hempty hvs h
+
+/-- **Annealing step invariant.**  `SAInv vr fixed p0 m0 tot s` says of a kernel state `s` (working
+machine, placements, location -> vertices lookup): for every working chip `c` and resource `i`,
+free[c][i] = tot c i - (sum of the demands of the vertices placed on c) and free[c][i] >= 0, where
+`tot` does not change over time; every fixed (location-constrained) vertex is where the initial
+placement `p0` put it; exactly the vertices of `p0` are placed, each on a working chip; the lookup
+`l2v[c]` lists exactly (and once) the vertices placed on `c`.  One `_step` of the Python kernel
+(`_get_candidate_swap`, the return-fit test, `_swap`, the revert) preserves it for EVERY proposal
+(source vertex, destination chip, accept bit). -/
+theorem saStep_inv (vr : VR) (fixed : List Vtx) (p0 : Placement) (m0 : Machine) (tot : Chip → Nat → Int)
+    (s s' : SA) (src : Vtx) (dst : Chip) (accept f : Bool)
+    (hn : (keys vr).Nodup) (I : SAInv vr fixed p0 m0 tot s)
+    (h : saStep vr fixed s src dst accept = .ok (s', f)) : SAInv vr fixed p0 m0 tot s' :=
+  SAInv.step hn I h
+
+/-- ... hence every run of the kernel, over EVERY proposal list -/
+theorem saRun_inv (vr : VR) (fixed : List Vtx) (p0 : Placement) (m0 : Machine) (tot : Chip → Nat → Int)
+    (steps : List Step) (s s' : SA) (fl fl' : List Bool)
+    (hn : (keys vr).Nodup) (I : SAInv vr fixed p0 m0 tot s)
+    (h : saRun vr fixed steps s fl = .ok (s', fl')) : SAInv vr fixed p0 m0 tot s' :=
+  SAInv.run hn steps s fl s' fl' I h
+
+/-- the state `PythonKernel.__init__` builds from a placement satisfying the placers' resource
+invariant satisfies the annealing invariant (so the hypothesis of `saStep_inv` is not vacuous) -/
+theorem saStart_inv (vr : VR) (m m2 : Machine) (rsv : Chip → Nat → Int) (p0 : Placement) (fixed : List Vtx)
+    (l2v : List (Chip × List Vtx)) (I : Inv vr m rsv m2 p0) (h : mkL2v m2 p0 = .ok l2v) :
+    SAInv vr fixed p0 m2 (fun c i => dem (cap m2 c) i + load vr p0 c i) { m := m2, p := p0, l2v := l2v } :=
+  SAInv.start fixed I h
+
+/-! ### only the documented errors -/
+
+/-- the documented domain of the placers, second part: constraints mention only vertices of
+`vertices_resources`; every resource exception lists the machine's resources and describes a working
+chip; reservations name a resource of the machine and, when per-chip, a working chip -/
+structure InDomain (vr : VR) (cs : List Constraint) (m : Machine) : Prop where
+  known : Known vr cs
+  excLen : ∀ e ∈ m.exc, e.2.length = m.res.length
+  excOk : ∀ e ∈ m.exc, m.ok e.1 = true
+  resIdx : ∀ r amt at_, Constraint.reserve r amt at_ ∈ cs → r < m.res.length
+  resOk : ∀ r amt c, Constraint.reserve r amt (some c) ∈ cs → m.ok c = true
+
+private theorem prefix_doc {vr : VR} {cs : List Constraint} {m : Machine} (dom : InDomain vr cs m) :
+    (∀ e, applySame vr cs ≠ .error e) ∧
+    ∀ vr' cs' subs, applySame vr cs = .ok (vr', cs', subs) → Known vr' cs' ∧
+      ∀ p e, prepareLoop vr' cs' m p = .error e → e = .insufficient ∨ e = .invalidConstraint := by
+  obtain ⟨⟨out, hout⟩, h2⟩ := applySameLoop_dom cs.length 0 vr cs [] dom.known
+  refine ⟨fun e he => ?_, fun vr' cs' subs hA => ?_⟩
+  · unfold applySame at he; rw [hout] at he; simp at he
+  · obtain ⟨k, hr⟩ := h2 vr' cs' subs hA
+    refine ⟨k, fun p e he => ?_⟩
+    refine prepareLoop_doc (n := m.res.length) cs' m p k ⟨rfl, fun x hx => ⟨dom.excLen x hx, dom.excOk x hx⟩⟩ ?_ e he
+    intro r a at_ hmem
+    have hmem' := hr r a at_ hmem
+    exact ⟨dom.resIdx r a at_ hmem', fun c hc => by subst hc; exact dom.resOk r a c hmem'⟩
+
+/-- **Sequential placer: only the documented errors.**  Under the documented domain the sequential
+placer (default vertex order or a custom order that is a permutation of the vertices, EVERY chip
+order - hence Hilbert, RCM, breadth-first) fails with `InsufficientResourceError` or
+`InvalidConstraintError` only - never KeyError / IndexError / ValueError, never by running out of
+scan steps. -/
+theorem seqPlace_documented (vr : VR) (cs : List Constraint) (m : Machine)
+    (vertexOrder : Option (List Vtx)) (chipOrder : Option (List Chip)) (e : Err)
+    (wf : WF vr cs m) (hcons : Consistent vr cs) (dom : InDomain vr cs m)
+    (hvo : ∀ vo, vertexOrder = some vo → vo.Nodup ∧ ∀ v, v ∈ vo ↔ v ∈ keys vr)
+    (h : seqPlace vr cs m vertexOrder chipOrder = .error e) : e = .insufficient ∨ e = .invalidConstraint := by
+  obtain ⟨d1, d2⟩ := prefix_doc dom
+  unfold seqPlace at h
+  split at h
+  · simp at h
+  · cases hA : applySame vr cs with
+    | error e' => exact absurd hA (d1 e')
+    | ok r =>
+      obtain ⟨vr', cs', subs⟩ := r
+      obtain ⟨hk, d3⟩ := d2 _ _ _ hA
+      have O := applySame_spec m wf.nodup wf.original hA
+      have hn' : (keys vr').Nodup := O.inv.nodup
+      have hnn' := O.nonneg wf.nonnegVR
+      cases hP : prepareLoop vr' cs' m [] with
+      | error e' =>
+        simp only [hA, hP, bind, Except.bind] at h
+        injection h with h; subst h; exact d3 _ _ hP
+      | ok r2 =>
+        obtain ⟨m', fixed⟩ := r2
+        have I0 := inv_after_prepare hn' hnn' wf.nonnegCap hP
+        have core : ∀ order, (∀ v ∈ order, v ∈ keys vr') → (∀ v ∈ keys vr', v ∈ order) →
+            (if ((chipOrder.getD m'.chips).filter m'.ok).isEmpty = true then (Except.error Err.insufficient : M Placement)
+             else (seqLoop vr' ((chipOrder.getD m'.chips).filter m'.ok) order 0 m' fixed).bind (finalise subs))
+              = .error e → e = .insufficient ∨ e = .invalidConstraint := by
+          intro order ho1 ho2 h
+          split at h
+          · injection h with h; exact Or.inl h.symm
+          · rename_i hne
+            have hne' : (chipOrder.getD m'.chips).filter m'.ok ≠ [] := by
+              intro e; rw [e] at hne; simp at hne
+            cases hL : seqLoop vr' ((chipOrder.getD m'.chips).filter m'.ok) order 0 m' fixed with
+            | error e' =>
+              simp only [hL, Except.bind] at h
+              injection h with h; subst h
+              exact Or.inl (seqLoop_doc vr' _ hne' _ _ _ _ _ ho1 (fun c hc => (List.mem_filter.1 hc).2) hL)
+            | ok pf =>
+              simp only [hL, Except.bind] at h
+              obtain ⟨⟨mf, If⟩, hmono, hall⟩ := seqLoop_inv hn' hnn' _ _ _ _ _ _ I0 hL
+              obtain ⟨p, hp, _⟩ := finish_ex O (hcons _ _ _ hA) hP mf If hmono (fun v hv => hall v (ho2 v hv))
+              rw [hp] at h; simp at h
+        cases vertexOrder with
+        | none =>
+          simp only [hA, hP, bind, Except.bind, pure, Except.pure] at h
+          exact core (keys vr') (fun v hv => hv) (fun v hv => hv) h
+        | some vo =>
+          obtain ⟨hvn, hvm⟩ := hvo vo rfl
+          obtain ⟨order, hS, _, ho⟩ := O.orderOk vo hvn hvm
+          simp only [List.length_nil] at hS
+          simp only [hA, hP, hS, bind, Except.bind] at h
+          exact core order (fun v hv => (ho v).1 hv) (fun v hv => (ho v).2 hv) h
+
+/-- **Random placer: only the documented errors**, for EVERY sequence of draws (`BadOracle` is the
+model's answer to a sequence of draws the RNG cannot produce, not an exception of the code). -/
+theorem randPlace_documented (vr : VR) (cs : List Constraint) (m : Machine) (picks : List Chip) (e : Err)
+    (wf : WF vr cs m) (hcons : Consistent vr cs) (dom : InDomain vr cs m)
+    (h : randPlace vr cs m picks = .error e) :
+    e = .insufficient ∨ e = .invalidConstraint ∨ e = .badOracle := by
+  obtain ⟨d1, d2⟩ := prefix_doc dom
+  unfold randPlace at h
+  cases hA : applySame vr cs with
+  | error e' => exact absurd hA (d1 e')
+  | ok r =>
+    obtain ⟨vr', cs', subs⟩ := r
+    obtain ⟨hk, d3⟩ := d2 _ _ _ hA
+    have O := applySame_spec m wf.nodup wf.original hA
+    have hn' : (keys vr').Nodup := O.inv.nodup
+    have hnn' := O.nonneg wf.nonnegVR
+    cases hP : prepareLoop vr' cs' m [] with
+    | error e' =>
+      simp only [hA, hP, bind, Except.bind] at h
+      injection h with h; subst h
+      rcases d3 _ _ hP with h | h
+      · exact Or.inl h
+      · exact Or.inr (Or.inl h)
+    | ok r2 =>
+      obtain ⟨m', fixed⟩ := r2
+      have I0 := inv_after_prepare hn' hnn' wf.nonnegCap hP
+      simp only [hA, hP, bind, Except.bind] at h
+      split at h
+      · rename_i e' hL
+        injection h with h; subst h
+        rcases randLoop_doc vr' _ _ _ _ _ _ (fun v hv => (List.mem_filter.1 hv).1)
+          (fun c hc => (mem_chips_iff m' c).1 hc) hL with h | h
+        · exact Or.inl h
+        · exact Or.inr (Or.inr h)
+      · rename_i pf hL
+        have hfree : ∀ v ∈ (keys vr').filter (fun v => !(aget fixed v).isSome), aget fixed v = none := by
+          intro v hv
+          simp only [List.mem_filter] at hv
+          cases hx : aget fixed v with
+          | none => rfl
+          | some x => simp [hx] at hv
+        obtain ⟨⟨mf, If⟩, hmono, hall⟩ :=
+          randLoop_inv hn' hnn' _ _ _ _ _ _ I0 hfree (List.Nodup.sublist List.filter_sublist hn') hL
+        obtain ⟨p, hp, _⟩ := finish_ex O (hcons _ _ _ hA) hP mf If hmono (fun v hv => by
+          cases hx : aget fixed v with
+          | none => exact hall v (by simp [List.mem_filter, hv, hx])
+          | some x => simp [hmono v x hx])
+        rw [hp] at h; simp at h
+
+/-- **Annealer, initial placement / trivial-solution path: only the documented errors**, for EVERY
+outcome of the two shuffles (`locs` a list of working chips, `vs` a list of the movable vertices). -/
+theorem saPlace_initial_documented (vr : VR) (cs : List Constraint) (m : Machine) (locs : List Chip)
+    (vs : List Vtx) (e : Err)
+    (wf : WF vr cs m) (hcons : Consistent vr cs) (dom : InDomain vr cs m)
+    (hlocs : ∀ c ∈ locs, m.ok c = true)
+    (hvs : ∀ vr' cs' subs m' fixed, applySame vr cs = .ok (vr', cs', subs) →
+      prepareLoop vr' cs' m [] = .ok (m', fixed) →
+      (∀ v ∈ keys vr', v ∈ vs ∨ v ∈ keys fixed) ∧ ∀ v ∈ vs, v ∈ keys vr')
+    (h : saPlace vr cs m locs vs none = .error e) : e = .insufficient ∨ e = .invalidConstraint := by
+  obtain ⟨d1, d2⟩ := prefix_doc dom
+  unfold saPlace at h
+  split at h
+  · simp at h
+  · cases hA : applySame vr cs with
+    | error e' => exact absurd hA (d1 e')
+    | ok r =>
+      obtain ⟨vr', cs', subs⟩ := r
+      obtain ⟨hk, d3⟩ := d2 _ _ _ hA
+      have O := applySame_spec m wf.nodup wf.original hA
+      have hn' : (keys vr').Nodup := O.inv.nodup
+      have hnn' := O.nonneg wf.nonnegVR
+      cases hP : prepareLoop vr' cs' m [] with
+      | error e' =>
+        simp only [hA, hP, bind, Except.bind] at h
+        injection h with h; subst h; exact d3 _ _ hP
+      | ok r2 =>
+        obtain ⟨m', fixed⟩ := r2
+        have I0 := inv_after_prepare hn' hnn' wf.nonnegCap hP
+        obtain ⟨hvs1, hvs2⟩ := hvs _ _ _ _ _ hA hP
+        cases hI : initialPlacement vr' m' locs vs with
+        | error e' =>
+          simp only [hA, hP, hI, bind, Except.bind] at h
+          injection h with h; subst h
+          cases locs with
+          | nil => simp [initialPlacement] at hI; exact Or.inl hI.symm
+          | cons c0 rest =>
+            simp only [initialPlacement] at hI
+            have hok' : ∀ c ∈ c0 :: rest, m'.ok c = true := fun c hc => by rw [I0.ok_eq]; exact hlocs c hc
+            exact Or.inl (initLoop_doc vr' vs c0 rest m' [] _ hvs2 (hok' c0 (by simp))
+              (fun c hc => hok' c (by simp [hc])) hI)
+        | ok r3 =>
+          obtain ⟨m'', init⟩ := r3
+          obtain ⟨I, hmono, hall⟩ := sa_initial_facts hn' hnn' wf.nonnegCap hP hI hvs1
+          simp only [hA, hP, hI, bind, Except.bind, pure, Except.pure] at h
+          have hp0 : List.foldl (fun q (vc : Vtx × Chip) => aset q vc.1 vc.2) init fixed = mergeP init fixed := rfl
+          rw [hp0] at h
+          obtain ⟨p, hp, _⟩ := finish_ex O (hcons _ _ _ hA) hP m'' I hmono hall
+          rw [hp] at h; simp at h
+
+/-- **Annealing kernel: one step raises nothing.**  In a state satisfying the invariant, for EVERY
+proposal whose source vertex is one of the placed vertices, `_step` (with `_get_candidate_swap`,
+`_swap` and the revert) performs no failing lookup: the model's only failure is `BadOracle` (the
+proposal is not a possible draw: a fixed source vertex, or a destination equal to the source chip). -/
+theorem saStep_documented (vr : VR) (fixed : List Vtx) (p0 : Placement) (m0 : Machine) (tot : Chip → Nat → Int)
+    (s : SA) (src : Vtx) (dst : Chip) (accept : Bool) (e : Err)
+    (hn : (keys vr).Nodup) (I : SAInv vr fixed p0 m0 tot s) (hpvr : ∀ v ∈ keys p0, v ∈ keys vr)
+    (hsrc : src ∈ keys p0)
+    (h : saStep vr fixed s src dst accept = .error e) : e = .badOracle :=
+  SAInv.step_doc hn I hpvr hsrc h
+
+/-- **Annealer (Python kernel), whole run: only the documented errors**, for EVERY outcome of the two
+shuffles and EVERY proposal list over the vertices (`BadOracle`: the proposal list is not a possible
+sequence of draws). -/
+theorem saPlace_documented (vr : VR) (cs : List Constraint) (m : Machine) (locs : List Chip)
+    (vs : List Vtx) (steps : Option (List Step)) (e : Err)
+    (wf : WF vr cs m) (hcons : Consistent vr cs) (dom : InDomain vr cs m)
+    (hlocs : ∀ c ∈ locs, m.ok c = true)
+    (hvs : ∀ vr' cs' subs m' fixed, applySame vr cs = .ok (vr', cs', subs) →
+      prepareLoop vr' cs' m [] = .ok (m', fixed) →
+      (∀ v ∈ keys vr', v ∈ vs ∨ v ∈ keys fixed) ∧ ∀ v ∈ vs, v ∈ keys vr')
+    (hsteps : ∀ sts, steps = some sts → ∀ vr' cs' subs, applySame vr cs = .ok (vr', cs', subs) →
+      ∀ st ∈ sts, st.src ∈ keys vr')
+    (h : saPlace vr cs m locs vs steps = .error e) :
+    e = .insufficient ∨ e = .invalidConstraint ∨ e = .badOracle := by
+  cases steps with
+  | none =>
+    rcases saPlace_initial_documented vr cs m locs vs e wf hcons dom hlocs hvs h with h | h
+    · exact Or.inl h
+    · exact Or.inr (Or.inl h)
+  | some sts =>
+    obtain ⟨d1, d2⟩ := prefix_doc dom
+    have hnone : ∀ e', saPlace vr cs m locs vs none = .error e' → e' = .insufficient ∨ e' = .invalidConstraint :=
+      fun e' he' => saPlace_initial_documented vr cs m locs vs e' wf hcons dom hlocs hvs he'
+    unfold saPlace at h hnone
+    split at h
+    · simp at h
+    · rename_i hlen
+      simp only [hlen, if_false] at hnone
+      cases hA : applySame vr cs with
+      | error e' => exact absurd hA (d1 e')
+      | ok r =>
+        obtain ⟨vr', cs', subs⟩ := r
+        have O := applySame_spec m wf.nodup wf.original hA
+        have hn' : (keys vr').Nodup := O.inv.nodup
+        have hnn' := O.nonneg wf.nonnegVR
+        cases hP : prepareLoop vr' cs' m [] with
+        | error e' =>
+          simp only [hA, hP, bind, Except.bind] at h hnone
+          rcases hnone e (by rw [h]) with h | h
+          · exact Or.inl h
+          · exact Or.inr (Or.inl h)
+        | ok r2 =>
+          obtain ⟨m', fixed⟩ := r2
+          obtain ⟨hvs1, hvs2⟩ := hvs _ _ _ _ _ hA hP
+          cases hI : initialPlacement vr' m' locs vs with
+          | error e' =>
+            simp only [hA, hP, hI, bind, Except.bind] at h hnone
+            rcases hnone e (by rw [h]) with h | h
+            · exact Or.inl h
+            · exact Or.inr (Or.inl h)
+          | ok r3 =>
+            obtain ⟨m'', init⟩ := r3
+            obtain ⟨I, hmono, hall⟩ := sa_initial_facts hn' hnn' wf.nonnegCap hP hI hvs1
+            simp only [hA, hP, hI, bind, Except.bind, pure, Except.pure] at h
+            have hp0 : List.foldl (fun q (vc : Vtx × Chip) => aset q vc.1 vc.2) init fixed = mergeP init fixed := rfl
+            rw [hp0] at h
+            obtain ⟨l2v, hL⟩ := mkL2v_ok m'' (mergeP init fixed) (m''.chips.map fun c => (c, []))
+              (by
+                intro vc hvc
+                have hok : m''.ok vc.2 = true := by
+                  rw [I.ok_eq]; exact I.pok vc.1 vc.2 ((mem_iff_aget I.pnodup vc.1 vc.2).1 hvc)
+                simp only [keys, List.map_map, List.mem_map, Function.comp]
+                exact ⟨vc.2, (mem_chips_iff m'' vc.2).2 hok, rfl⟩)
+            have hL' : mkL2v m'' (mergeP init fixed) = .ok l2v := hL
+            simp only [hL'] at h
+            have J0 := SAInv.start (keys fixed) I hL'
+            cases hR : saRun vr' (keys fixed) sts { m := m'', p := mergeP init fixed, l2v := l2v } [] with
+            | error e' =>
+              simp only [hR] at h
+              injection h with h; subst h
+              right; right
+              refine SAInv.run_doc hn' I.pvr sts _ _ _ J0 (fun st hst => ?_) hR
+              exact (aget_isSome_iff _ _).1 (hall _ (hsteps sts rfl _ _ _ hA st hst))
+            | ok r4 =>
+              obtain ⟨s, fl'⟩ := r4
+              simp only [hR] at h
+              have J := SAInv.run hn' _ _ _ _ _ J0 hR
+              obtain ⟨p, hp, _⟩ := finish_ex O (hcons _ _ _ hA) hP s.m (J.toInv I)
+                (fun v c hv => by
+                  rw [J.fixedUnmoved v ((aget_isSome_iff fixed v).1 (by simp [hv]))]
+                  exact hmono v c hv)
+                (fun v hv => (aget_isSome_iff _ _).2 ((J.pkeys v).2 ((aget_isSome_iff _ _).1 (hall v hv))))
+              rw [hp] at h; simp at h
 
 /-- **The oracle is the specification.**  The decidable check the harness runs on every placement
 returned by the implementation is equivalent to `Feasible`. -/
@@ -427,6 +800,236 @@ theorem seqPlace_complete_unit (vr : VR) (cs : List Constraint) (m m' : Machine)
       simp only [Option.getD_some] at hpf
       simp [hA, hprep, bind, Except.bind, substOrder, hemp, hpf, finalise, finaliseFrom]
 
+/-- what the unit-demand hypotheses give before the placement loops start -/
+private theorem unit_setup {vr : VR} {cs : List Constraint} {m m' : Machine} {fixed : Placement} {r0 : Nat}
+    (hnodup : (keys vr).Nodup) (hcap : NonNegCap m)
+    (hnosame : ∀ vs, Constraint.same vs ∉ cs)
+    (hunit : ∀ v d, (v, d) ∈ vr → UnitDem r0 d)
+    (hprep : prepareLoop vr cs m [] = .ok (m', fixed)) :
+    applySame vr cs = .ok (vr, cs, []) ∧ NN m' ∧
+    (∀ v ∈ keys vr, ∃ d, aget vr v = some d ∧ UnitDem r0 d) ∧ ∀ c, m'.ok c = m.ok c := by
+  have hA : applySame vr cs = .ok (vr, cs, []) := applySameLoop_noSame vr cs [] hnosame _ _
+  have hnn : NonNegVR vr := by
+    intro v d hvd i
+    have hu := hunit v d hvd
+    by_cases e : i = r0
+    · subst e; rcases hu.2 with h | h <;> omega
+    · rw [hu.1 i e]; omega
+  have I := inv_after_prepare hnodup hnn hcap hprep
+  refine ⟨hA, fun c hc => I.nonneg c (by rw [← I.ok_eq]; exact hc), fun v hv => ?_, I.ok_eq⟩
+  have := (aget_isSome_iff vr v).2 hv
+  cases hx : aget vr v with
+  | none => simp [hx] at this
+  | some d => exact ⟨d, rfl, hunit v d (aget_some_mem hx)⟩
+
+/-- **Completeness (random placer) under the unit-demand hypothesis.**  Same hypotheses as
+`seqPlace_complete_unit` (the chip list is `list(machine)`): for EVERY sequence of draws the random
+placer succeeds - the only other outcome of the model is `BadOracle`, i.e. the sequence of draws is
+not one the RNG can produce (a chip outside the remaining candidates, or too few draws). -/
+theorem randPlace_complete_unit (vr : VR) (cs : List Constraint) (m m' : Machine) (fixed : Placement)
+    (picks : List Chip) (r0 : Nat)
+    (hnodup : (keys vr).Nodup) (hcap : NonNegCap m)
+    (hnosame : ∀ vs, Constraint.same vs ∉ cs)
+    (hunit : ∀ v d, (v, d) ∈ vr → UnitDem r0 d)
+    (hprep : prepareLoop vr cs m [] = .ok (m', fixed))
+    (hne : m'.chips ≠ [])
+    (hsuff : needOf fixed vr r0 (keys vr) ≤ total m' m'.chips r0) :
+    (∃ p, randPlace vr cs m picks = .ok p) ∨ randPlace vr cs m picks = .error .badOracle := by
+  obtain ⟨hA, hNN, hunit', _⟩ := unit_setup hnodup hcap hnosame hunit hprep
+  unfold randPlace
+  simp only [hA, hprep, bind, Except.bind]
+  rw [needOf_filter] at hsuff
+  cases hL : randLoop vr picks (List.filter (fun v => !(aget fixed v).isSome) (keys vr)) m'.chips m' fixed with
+  | ok pf => left; exact ⟨pf, by simp [finalise, finaliseFrom]⟩
+  | error e =>
+    right
+    have := randLoop_complete vr r0 picks _ _ _ _ e (chips_nodup m') hne
+      (fun c hc => (mem_chips_iff m' c).1 hc) hNN
+      (fun v hv => hunit' v (List.mem_filter.1 hv).1) hsuff hL
+    subst this; rfl
+
+/-- **Completeness (annealer's initial placement) under the unit-demand hypothesis.**  Same
+hypotheses; for EVERY outcome of the two shuffles (`locs` a permutation of `list(machine)`, `vs` a
+permutation of the movable vertices) the initial placement - which is what `sa.place` returns on the
+trivial-solution path and what the kernel starts from - succeeds. -/
+theorem saPlace_initial_complete_unit (vr : VR) (cs : List Constraint) (m m' : Machine) (fixed : Placement)
+    (locs : List Chip) (vs : List Vtx) (r0 : Nat)
+    (hnodup : (keys vr).Nodup) (hcap : NonNegCap m)
+    (hnosame : ∀ vs, Constraint.same vs ∉ cs)
+    (hunit : ∀ v d, (v, d) ∈ vr → UnitDem r0 d)
+    (hprep : prepareLoop vr cs m [] = .ok (m', fixed))
+    (hlocs : locs.Perm m'.chips)
+    (hvs : vs.Perm ((keys vr).filter fun v => !(aget fixed v).isSome))
+    (hne : m'.chips ≠ [])
+    (hsuff : needOf fixed vr r0 (keys vr) ≤ total m' m'.chips r0) :
+    ∃ p, saPlace vr cs m locs vs none = .ok (p, []) := by
+  obtain ⟨hA, hNN, hunit', _⟩ := unit_setup hnodup hcap hnosame hunit hprep
+  unfold saPlace
+  split
+  · exact ⟨[], rfl⟩
+  · simp only [hA, hprep, bind, Except.bind, pure, Except.pure]
+    rw [needOf_filter, ← needOf_perm _ _ _ hvs, ← total_perm m' r0 hlocs] at hsuff
+    have hnd : locs.Nodup := (List.Perm.nodup_iff hlocs).2 (chips_nodup m')
+    have hok : ∀ c ∈ locs, m'.ok c = true := fun c hc => (mem_chips_iff m' c).1 ((List.Perm.mem_iff hlocs).1 hc)
+    cases locs with
+    | nil => exact absurd (List.Perm.eq_nil (List.Perm.symm hlocs)) hne
+    | cons c0 rest =>
+      obtain ⟨out, hout⟩ := initLoop_complete vr r0 vs c0 rest m' [] hnd (hok c0 (by simp))
+        (fun c hc => hok c (by simp [hc])) hNN
+        (fun v hv => hunit' v (List.mem_filter.1 ((List.Perm.mem_iff hvs).1 hv)).1) hsuff
+      obtain ⟨m'', init⟩ := out
+      simp only [initialPlacement, hout]
+      exact ⟨mergeP init fixed, by simp [finalise, finaliseFrom, mergeP]⟩
+
+/-- **Completeness (annealer with the Python kernel, whole run) under the unit-demand hypothesis.**
+Same hypotheses; for EVERY outcome of the shuffles and EVERY proposal list over the vertices
+`sa.place` succeeds (`BadOracle`: the proposal list is not a possible sequence of draws). -/
+theorem saPlace_complete_unit (vr : VR) (cs : List Constraint) (m m' : Machine) (fixed : Placement)
+    (locs : List Chip) (vs : List Vtx) (steps : Option (List Step)) (r0 : Nat)
+    (hnodup : (keys vr).Nodup) (hcap : NonNegCap m)
+    (hnosame : ∀ vs, Constraint.same vs ∉ cs)
+    (hunit : ∀ v d, (v, d) ∈ vr → UnitDem r0 d)
+    (hprep : prepareLoop vr cs m [] = .ok (m', fixed))
+    (hlocs : locs.Perm m'.chips)
+    (hvs : vs.Perm ((keys vr).filter fun v => !(aget fixed v).isSome))
+    (hne : m'.chips ≠ [])
+    (hsuff : needOf fixed vr r0 (keys vr) ≤ total m' m'.chips r0)
+    (hsteps : ∀ sts, steps = some sts → ∀ st ∈ sts, st.src ∈ keys vr) :
+    (∃ p fl, saPlace vr cs m locs vs steps = .ok (p, fl)) ∨
+      saPlace vr cs m locs vs steps = .error .badOracle := by
+  obtain ⟨p, hp⟩ := saPlace_initial_complete_unit vr cs m m' fixed locs vs r0 hnodup hcap hnosame hunit hprep
+    hlocs hvs hne hsuff
+  cases steps with
+  | none => exact Or.inl ⟨p, [], hp⟩
+  | some sts =>
+    obtain ⟨hA, hNN, hunit', _⟩ := unit_setup hnodup hcap hnosame hunit hprep
+    have hnn : NonNegVR vr := by
+      intro v d hvd i
+      have hu := hunit v d hvd
+      by_cases e : i = r0
+      · subst e; rcases hu.2 with h | h <;> omega
+      · rw [hu.1 i e]; omega
+    unfold saPlace at hp ⊢
+    split at hp
+    · rename_i h0; simp only [h0, if_true]; exact Or.inl ⟨[], [], rfl⟩
+    · rename_i h0
+      simp only [h0, if_false]
+      simp only [hA, hprep, bind, Except.bind, pure, Except.pure] at hp ⊢
+      cases hI : initialPlacement vr m' locs vs with
+      | error e' => simp [hI] at hp
+      | ok r3 =>
+        obtain ⟨m'', init⟩ := r3
+        simp only [hI]
+        have hp0 : List.foldl (fun q (vc : Vtx × Chip) => aset q vc.1 vc.2) init fixed = mergeP init fixed := rfl
+        rw [hp0]
+        obtain ⟨I, hmono, hall⟩ := sa_initial_facts (cs' := cs) hnodup hnn hcap hprep hI (by
+          intro v hv
+          cases hx : aget fixed v with
+          | none => exact Or.inl ((List.Perm.mem_iff hvs).2 (by simp [List.mem_filter, hv, hx]))
+          | some c => exact Or.inr ((aget_isSome_iff fixed v).1 (by simp [hx])))
+        obtain ⟨l2v, hL⟩ := mkL2v_ok m'' (mergeP init fixed) (m''.chips.map fun c => (c, []))
+          (by
+            intro vc hvc
+            have hok : m''.ok vc.2 = true := by
+              rw [I.ok_eq]; exact I.pok vc.1 vc.2 ((mem_iff_aget I.pnodup vc.1 vc.2).1 hvc)
+            simp only [keys, List.map_map, List.mem_map, Function.comp]
+            exact ⟨vc.2, (mem_chips_iff m'' vc.2).2 hok, rfl⟩)
+        have hL' : mkL2v m'' (mergeP init fixed) = .ok l2v := hL
+        simp only [hL']
+        have J0 := SAInv.start (keys fixed) I hL'
+        cases hR : saRun vr (keys fixed) sts { m := m'', p := mergeP init fixed, l2v := l2v } [] with
+        | error e' =>
+          right
+          have := SAInv.run_doc hnodup I.pvr sts _ _ _ J0
+            (fun st hst => (aget_isSome_iff _ _).1 (hall _ (hsteps sts rfl st hst))) hR
+          subst this; rfl
+        | ok r4 =>
+          obtain ⟨s, fl'⟩ := r4
+          left
+          exact ⟨s.p, fl', by simp [finalise, finaliseFrom]⟩
+
+/-- **Completeness with the default chip order** (`list(machine)`: sequential and breadth-first
+placers) - `seqPlace_complete_unit` with the hypotheses on the chip order discharged. -/
+theorem seqPlace_complete_unit_default (vr : VR) (cs : List Constraint) (m m' : Machine) (fixed : Placement)
+    (vertexOrder : Option (List Vtx)) (r0 : Nat)
+    (hnodup : (keys vr).Nodup) (hcap : NonNegCap m)
+    (hnosame : ∀ vs, Constraint.same vs ∉ cs)
+    (hunit : ∀ v d, (v, d) ∈ vr → UnitDem r0 d)
+    (hprep : prepareLoop vr cs m [] = .ok (m', fixed))
+    (hknown : ∀ v ∈ vertexOrder.getD (keys vr), v ∈ keys vr)
+    (hne : m'.chips ≠ [])
+    (hsuff : needOf fixed vr r0 (vertexOrder.getD (keys vr)) ≤ total m' m'.chips r0) :
+    ∃ p, seqPlace vr cs m vertexOrder none = .ok p := by
+  have hmem : ∀ c, c ∈ m'.chips.filter m'.ok ↔ m'.ok c = true := by
+    intro c
+    rw [List.mem_filter, mem_chips_iff]
+    exact ⟨fun h => h.2, fun h => ⟨h, h⟩⟩
+  have hnd' : (m'.chips.filter m'.ok).Nodup := List.Nodup.sublist List.filter_sublist (chips_nodup m')
+  apply seqPlace_complete_unit vr cs m m' fixed vertexOrder none r0 hnodup hcap hnosame hunit hprep hknown
+  · simpa using hnd'
+  · simp only [Option.getD_none]
+    obtain ⟨c, hc⟩ := List.exists_mem_of_ne_nil _ hne
+    intro e
+    have := (hmem c).2 ((mem_chips_iff m' c).1 hc)
+    rw [e] at this; simp at this
+  · simp only [Option.getD_none]
+    rw [total_cover m' r0 _ hnd' hmem]
+    exact hsuff
+
+/-! ### the Hilbert placer -/
+
+/-- **The model of `hilbert(level)` is a Hilbert curve**: for EVERY level it visits every point of
+the `2^level x 2^level` square, and no point twice (in particular it has no point with a negative
+coordinate). -/
+theorem hilbert_curve_exact (L : Nat) :
+    (hilbertPts L).Nodup ∧
+    ∀ q : Int × Int, q ∈ hilbertPts L ↔ 0 ≤ q.1 ∧ q.1 < 2 ^ L ∧ 0 ≤ q.2 ∧ q.2 < 2 ^ L :=
+  hilbertPts_spec L
+
+/-- **Hilbert chip-order coverage**: for EVERY `w x h` machine `hilbert_chip_order` lists every chip
+of the machine, and no chip twice. -/
+theorem hilbert_covers (w h : Nat) :
+    (hilbertChips w h).Nodup ∧ ∀ x y, x < w → y < h → (x, y) ∈ hilbertChips w h :=
+  hilbertChips_cover w h
+
+/-- **Completeness of the Hilbert placer under the unit-demand hypothesis** - `seqPlace_complete_unit`
+with the coverage hypotheses on the chip order discharged: the total is that of `list(machine)`. -/
+theorem hilbertPlace_complete_unit (vr : VR) (cs : List Constraint) (m m' : Machine) (fixed : Placement)
+    (vertexOrder : Option (List Vtx)) (r0 : Nat)
+    (hnodup : (keys vr).Nodup) (hcap : NonNegCap m)
+    (hnosame : ∀ vs, Constraint.same vs ∉ cs)
+    (hunit : ∀ v d, (v, d) ∈ vr → UnitDem r0 d)
+    (hprep : prepareLoop vr cs m [] = .ok (m', fixed))
+    (hknown : ∀ v ∈ vertexOrder.getD (keys vr), v ∈ keys vr)
+    (hne : m'.chips ≠ [])
+    (hsuff : needOf fixed vr r0 (vertexOrder.getD (keys vr)) ≤ total m' m'.chips r0) :
+    ∃ p, seqPlace vr cs m vertexOrder (some (hilbertChips m.w m.h)) = .ok p := by
+  obtain ⟨_, _, _, hokeq⟩ := unit_setup hnodup hcap hnosame hunit hprep
+  obtain ⟨hnd, hcov⟩ := hilbertChips_cover m.w m.h
+  have hmem : ∀ c, c ∈ (hilbertChips m.w m.h).filter m'.ok ↔ m'.ok c = true := by
+    intro c
+    rw [List.mem_filter]
+    constructor
+    · exact fun h => h.2
+    · intro h
+      refine ⟨?_, h⟩
+      have h' := h
+      rw [hokeq] at h'
+      simp only [Machine.ok, Bool.and_eq_true, decide_eq_true_eq] at h'
+      exact hcov c.1 c.2 h'.1.1 h'.1.2
+  have hnd' : ((hilbertChips m.w m.h).filter m'.ok).Nodup := List.Nodup.sublist List.filter_sublist hnd
+  apply seqPlace_complete_unit vr cs m m' fixed vertexOrder (some (hilbertChips m.w m.h)) r0 hnodup hcap
+    hnosame hunit hprep hknown
+  · simpa using hnd'
+  · simp only [Option.getD_some]
+    obtain ⟨c, hc⟩ := List.exists_mem_of_ne_nil _ hne
+    intro e
+    have := (hmem c).2 ((mem_chips_iff m' c).1 hc)
+    rw [e] at this; simp at this
+  · simp only [Option.getD_some]
+    rw [total_cover m' r0 _ hnd' hmem]
+    exact hsuff
+
 /-! ### non-vacuity: a problem with a same-chip group whose two members are both pinned (to the
 same chip), a global reservation, a resource exception, a custom vertex order and chip order
 satisfies every hypothesis, and both placers succeed on it -/
@@ -504,6 +1107,117 @@ example : Feasible exVR exCS exM [(o 2, (0, 0)), (o 0, (1, 0)), (o 1, (1, 0))] :
       rcases hv with rfl | rfl <;> simp)
     (by rfl)
 
+/-- the example problem lies in the domain of the only-documented-errors theorems -/
+private theorem exDom : InDomain exVR exCS exM where
+  known := by
+    intro c hc
+    simp [exCS] at hc
+    rcases hc with rfl | rfl | rfl | rfl
+    · intro v hv; simp at hv; rcases hv with rfl | rfl <;> simp [exVR, keys]
+    · simp [CKnown, exVR, keys]
+    · trivial
+    · simp [CKnown, exVR, keys]
+  excLen := by intro e he; simp [exM] at he; subst he; rfl
+  excOk := by intro e he; simp [exM] at he; subst he; rfl
+  resIdx := by
+    intro r amt at_ h; simp [exCS] at h; obtain ⟨rfl, _, _⟩ := h; simp [exM]
+  resOk := by intro r amt c h; simp [exCS] at h
+
+/-- the hypotheses of the only-documented-errors theorems are satisfiable together -/
+example (co : Option (List Chip)) (e : Err) (h : seqPlace exVR exCS exM none co = .error e) :
+    e = .insufficient ∨ e = .invalidConstraint :=
+  seqPlace_documented exVR exCS exM none co e exWF exCons exDom (by intro vo h; simp at h) h
+
+example (co : Option (List Chip)) (e : Err) (h : seqPlace exVR exCS exM (some [o 2, o 0, o 1]) co = .error e) :
+    e = .insufficient ∨ e = .invalidConstraint :=
+  seqPlace_documented exVR exCS exM _ co e exWF exCons exDom
+    (by intro vo h; injection h with h; subst h; exact ⟨by decide, by
+      intro v; simp only [exVR, keys, List.map_cons, List.map_nil, List.mem_cons, List.not_mem_nil, or_false]
+      constructor <;> (intro h; rcases h with h | h | h <;> simp [h])⟩) h
+
+example (picks : List Chip) (e : Err) (h : randPlace exVR exCS exM picks = .error e) :
+    e = .insufficient ∨ e = .invalidConstraint ∨ e = .badOracle :=
+  randPlace_documented exVR exCS exM picks e exWF exCons exDom h
+
+private theorem okEq {α : Type} [DecidableEq α] (x : M α) (a : α)
+    (h : (match x with | .ok r => decide (r = a) | .error _ => false) = true) : x = .ok a := by
+  cases x with
+  | error e => simp at h
+  | ok r => simp at h; rw [h]
+
+/-- an annealing run with a swap that displaces a movable vertex (skipping the fixed one on the
+destination chip), a reverted swap and an accepted one -/
+private def saVR : VR := [(o 0, [1]), (o 1, [1]), (o 2, [1]), (o 3, [1])]
+private def saM : Machine := { w := 2, h := 1, res := [2], exc := [], dead := [] }
+
+example : Feasible saVR [loc (o 3) (1, 0)] saM [(o 0, (0, 0)), (o 1, (1, 0)), (o 2, (0, 0)), (o 3, (1, 0))] :=
+  saPlace_sound saVR [loc (o 3) (1, 0)] saM [(0, 0), (1, 0)] [o 0, o 1, o 2]
+    (some [⟨o 0, (1, 0), true⟩, ⟨o 1, (1, 0), false⟩, ⟨o 1, (1, 0), true⟩]) _ [true, true, true]
+    ⟨by decide,
+     ⟨fun v hv => by simp [saVR, keys] at hv; rcases hv with rfl | rfl | rfl | rfl <;> trivial,
+      fun c hc => by simp at hc; subst hc; trivial⟩,
+     by
+      intro v d h i; apply dem_nonneg_of_all
+      simp [saVR] at h
+      rcases h with ⟨_, rfl⟩ | ⟨_, rfl⟩ | ⟨_, rfl⟩ | ⟨_, rfl⟩ <;> intro x hx <;> simp at hx <;> omega,
+     by
+      intro c _ i; apply dem_nonneg_of_all
+      simp only [cap, saM, aget]; intro x hx; simp at hx; omega⟩
+    (by
+      intro vr' cs' subs h
+      have e : applySame saVR [loc (o 3) (1, 0)] = .ok (saVR, [loc (o 3) (1, 0)], []) := by rfl
+      rw [e] at h; injection h with h; injection h with h1 h2; injection h2 with h2 h3
+      subst h2
+      intro v c c' hc hc'
+      simp at hc hc'
+      rw [hc.2, hc'.2])
+    (by intro h; simp [saVR] at h)
+    (by
+      intro vr' cs' subs m' fixed hA hP v hv
+      have e : applySame saVR [loc (o 3) (1, 0)] = .ok (saVR, [loc (o 3) (1, 0)], []) := by rfl
+      rw [e] at hA; injection hA with hA; injection hA with h1 h2; injection h2 with h2 h3
+      subst h1; subst h2
+      have e2 : prepareLoop saVR [loc (o 3) (1, 0)] saM [] =
+          .ok ({ saM with exc := [((1, 0), [1])] }, [(o 3, (1, 0))]) := by rfl
+      rw [e2] at hP; injection hP with hP; injection hP with h4 h5; subst h5
+      simp [keys, saVR] at hv ⊢
+      rcases hv with rfl | rfl | rfl | rfl <;> simp)
+    (okEq _ _ (by decide +kernel))
+
+private theorem exPrefix {vr' : VR} {cs' : List Constraint} {subs : List (List Vtx)} {m' : Machine} {fixed : Placement}
+    (hA : applySame exVR exCS = .ok (vr', cs', subs)) (hP : prepareLoop vr' cs' exM [] = .ok (m', fixed)) :
+    vr' = [(o 2, [0, 1]), (m 0, [2, 2])] ∧ fixed = [(m 0, (1, 0))] := by
+  have e : applySame exVR exCS = .ok ([(o 2, [0, 1]), (m 0, [2, 2])],
+      [same [m 0, m 0], loc (m 0) (1, 0), reserve 1 1 none, loc (m 0) (1, 0)], [[o 0, o 1]]) := by rfl
+  rw [e] at hA; injection hA with hA; injection hA with h1 h2; injection h2 with h2 h3
+  subst h1; subst h2
+  have e2 : prepareLoop [(o 2, [0, 1]), (m 0, [2, 2])]
+      [same [m 0, m 0], loc (m 0) (1, 0), reserve 1 1 none, loc (m 0) (1, 0)] exM [] =
+      .ok ({ exM with res := [5, 7], exc := [((0, 0), [1, 1]), ((1, 0), [1, 3])] }, [(m 0, (1, 0))]) := by rfl
+  rw [e2] at hP; injection hP with hP; injection hP with h4 h5
+  exact ⟨rfl, h5.symm⟩
+
+/-- the hypotheses of the whole-run only-documented-errors theorem are satisfiable together -/
+example (e : Err)
+    (h : saPlace exVR exCS exM [(0, 0), (1, 0)] [o 2] (some [⟨o 2, (1, 0), true⟩, ⟨o 2, (0, 0), false⟩]) = .error e) :
+    e = .insufficient ∨ e = .invalidConstraint ∨ e = .badOracle :=
+  saPlace_documented exVR exCS exM _ _ _ e exWF exCons exDom
+    (by intro c hc; simp at hc; rcases hc with rfl | rfl <;> rfl)
+    (by
+      intro vr' cs' subs m' fixed hA hP
+      obtain ⟨rfl, rfl⟩ := exPrefix hA hP
+      simp [keys])
+    (by
+      intro sts hs vr' cs' subs hA st hst
+      injection hs with hs; subst hs
+      have e : applySame exVR exCS = .ok ([(o 2, [0, 1]), (m 0, [2, 2])],
+          [same [m 0, m 0], loc (m 0) (1, 0), reserve 1 1 none, loc (m 0) (1, 0)], [[o 0, o 1]]) := by rfl
+      rw [e] at hA; injection hA with hA; injection hA with h1 h2
+      subst h1
+      simp at hst
+      rcases hst with rfl | rfl <;> simp [keys])
+    h
+
 /-- the specification is not trivially true: the same problem with every vertex on the small chip -/
 example : ¬ Feasible exVR exCS exM [(o 2, (0, 0)), (o 0, (0, 0)), (o 1, (0, 0))] := by
   rw [← validPlacement_iff]; decide
@@ -531,6 +1245,48 @@ example : ∃ p, seqPlace unVR unCS unM none none = .ok p :=
         | zero => exact absurd rfl hi
         | succ j => simp [dem])
     (by rfl) (by intro v hv; exact hv) (by decide) (by decide) (by decide)
+
+private theorem unCapNN : NonNegCap unM := by
+  intro c _ i; apply dem_nonneg_of_all
+  simp only [cap, unM, aget]; intro x hx; simp at hx; omega
+
+private theorem unUnit : ∀ v d, (v, d) ∈ unVR → UnitDem 0 d := by
+  intro v d h
+  simp [unVR] at h
+  rcases h with ⟨_, rfl⟩ | ⟨_, rfl⟩ | ⟨_, rfl⟩
+  all_goals
+    refine ⟨fun i hi => ?_, by simp [dem]⟩
+    cases i with
+    | zero => exact absurd rfl hi
+    | succ j => simp [dem]
+
+/-- the same tight problem satisfies the hypotheses of the completeness theorems of the random placer
+and of the annealer's initial placement -/
+example (picks : List Chip) :
+    (∃ p, randPlace unVR unCS unM picks = .ok p) ∨ randPlace unVR unCS unM picks = .error .badOracle :=
+  randPlace_complete_unit unVR unCS unM { unM with res := [1], exc := [((0, 0), [0])] } [(o 0, (0, 0))]
+    picks 0 (by decide) unCapNN (by intro vs h; simp [unCS] at h) unUnit (by rfl) (by decide) (by decide)
+
+example : ∃ p, saPlace unVR unCS unM [(1, 0), (0, 0)] [o 2, o 1] none = .ok (p, []) :=
+  saPlace_initial_complete_unit unVR unCS unM { unM with res := [1], exc := [((0, 0), [0])] } [(o 0, (0, 0))]
+    [(1, 0), (0, 0)] [o 2, o 1] 0 (by decide) unCapNN (by intro vs h; simp [unCS] at h) unUnit (by rfl)
+    (by decide) (by decide) (by decide) (by decide)
+
+/-- the Hilbert order of a 3 x 2 machine (level 2: the curve of the 4 x 4 square) -/
+example : hilbertChips 3 2 = [(0, 0), (1, 0), (1, 1), (0, 1), (0, 2), (0, 3), (1, 3), (1, 2), (2, 2), (2, 3),
+    (3, 3), (3, 2), (3, 1), (2, 1), (2, 0), (3, 0)] := by decide
+
+example : ∃ p, seqPlace unVR unCS unM none (some (hilbertChips unM.w unM.h)) = .ok p :=
+  hilbertPlace_complete_unit unVR unCS unM { unM with res := [1], exc := [((0, 0), [0])] } [(o 0, (0, 0))]
+    none 0 (by decide) unCapNN (by intro vs h; simp [unCS] at h) unUnit (by rfl) (by intro v hv; exact hv)
+    (by decide) (by decide)
+
+example : (∃ p fl, saPlace unVR unCS unM [(1, 0), (0, 0)] [o 2, o 1] (some [⟨o 1, (0, 0), true⟩]) = .ok (p, fl)) ∨
+    saPlace unVR unCS unM [(1, 0), (0, 0)] [o 2, o 1] (some [⟨o 1, (0, 0), true⟩]) = .error .badOracle :=
+  saPlace_complete_unit unVR unCS unM { unM with res := [1], exc := [((0, 0), [0])] } [(o 0, (0, 0))]
+    [(1, 0), (0, 0)] [o 2, o 1] _ 0 (by decide) unCapNN (by intro vs h; simp [unCS] at h) unUnit (by rfl)
+    (by decide) (by decide) (by decide) (by decide)
+    (by intro sts h st hst; injection h with h; subst h; simp at hst; subst hst; simp [unVR, keys])
 
 end example_
 
